@@ -178,7 +178,7 @@ func workerMain() {
 			}
 			k := sp.Case(i)
 			r := x.run(&k, reuse)
-			merge(&rp, &k, &r, i == rq.Lo && i%97 == 0)
+			merge(&rp, &k, &r, r.Value && len(k.Src) < 200 && len(k.Pre) < 200)
 			if r.Nontriv {
 				nkeys[nontrivKey(&k, &r)] = struct{}{}
 			}
